@@ -48,7 +48,13 @@ pub fn step_check(s: &In) -> Result<(), Violation> {
         return Err(viol(
             s,
             "too-many-handlers",
-            if streamed(s).is_empty() { format!("max_receive={max_n}") } else { format!("max_receive{}", streamed(s)) },
+            if s.cfg.cork {
+                "max_receive with a burst in one read".to_string()
+            } else if streamed(s).is_empty() {
+                format!("max_receive={max_n}")
+            } else {
+                format!("max_receive{}", streamed(s))
+            },
             format!("{} publish handlers executing at once with max_receive {max_n}", ex.len()),
         ));
     }
@@ -176,6 +182,26 @@ pub fn configs(tier: Tier) -> Vec<InCfg> {
                 });
             }
         }
+    }
+    // bursts: several publishes arriving in one read (corked writes), v3 server count limit
+    for &n in &[1u16, 2] {
+        let mut ep = EpCfg::new(Ver::V3, Role::Server);
+        ep.max_receive = n;
+        ep.handler_auto = false;
+        v.push(InCfg {
+            ep,
+            connect_props: vec![],
+            alphabet: vec![q(1, 5), q(0, 5)],
+            prologue: vec![],
+            max_len: if tier == Tier::Quick { 4 } else { 5 },
+            outcomes: vec![GateOutcome::Ok],
+            poutcomes: vec![GateOutcome::Ok],
+            cork: true,
+            judge: J_C12,
+            app_sends: vec![],
+            skip_connect: false,
+            known: vec![],
+        });
     }
     // v5 server: SUBSCRIBE / UNSUBSCRIBE being handled do not count against Receive Maximum
     for &n in if tier == Tier::Quick { &[1u16][..] } else { &[1u16, 2][..] } {
